@@ -20,6 +20,15 @@ from . import resid
 SCHEMES = ["explicit_euler", "generalized_rush_larsen", "hybrid_rush_larsen"]
 
 
+def scheme_order(schemes, key: str):
+    """The schemes in an order derived from `key`: the order in which one code generator is asked for several
+    schemes of one model object must not matter (state kept on the model between two schemes would show)."""
+    import itertools
+    import zlib
+    perms = list(itertools.permutations(list(schemes)))
+    return list(perms[zlib.crc32(key.encode()) % len(perms)]) if perms else []
+
+
 def qf(v) -> float:
     return float(Fraction(v["n"], v["d"]))
 
@@ -259,7 +268,7 @@ def check_model_case(rec, backend="numpy", remove_unused=(False, True), workdir=
     for ru in remove_unused:
         ctx = {**ctx0, "remove_unused": ru}
         try:
-            mod = make_mod(backend, ode, schemes, workdir=workdir, remove_unused=ru, delta=delta,
+            mod = make_mod(backend, ode, scheme_order(schemes, text + str(ru)), workdir=workdir, remove_unused=ru, delta=delta,
                            stiff_states=list(stiff))
         except Exception as ex:  # noqa: BLE001
             bad.append({"tag": "generate", "exception": type(ex).__name__, "message": str(ex)[:300], **ctx})
